@@ -70,17 +70,22 @@ def canon_exc(e: BaseException) -> str:
     return type(e).__name__
 
 
-def call_impl(mod, stream: str, line: str, timeout: int = 10) -> str:
-    signal.signal(signal.SIGALRM, _alarm)
-    signal.alarm(timeout)
-    try:
-        return mod.impl(stream, line)
-    except Timeout as e:
-        return "exc Timeout"
-    except Exception as e:  # noqa: BLE001
-        return "exc " + canon_exc(e)
-    finally:
-        signal.alarm(0)
+def call_impl(mod, stream: str, line: str, timeout: int = 30) -> str:
+    """Run the real library on one case.  A watchdog turns a hang into `exc Timeout`; because the machine may be
+    heavily loaded, a first timeout is retried once with a longer limit before it is believed."""
+    for attempt, limit in enumerate((timeout, 4 * timeout)):
+        signal.signal(signal.SIGALRM, _alarm)
+        signal.alarm(limit)
+        try:
+            return mod.impl(stream, line)
+        except Timeout:
+            if attempt == 1:
+                return "exc Timeout"
+        except Exception as e:  # noqa: BLE001
+            return "exc " + canon_exc(e)
+        finally:
+            signal.alarm(0)
+    return "exc Timeout"
 
 
 # --------------------------------------------------------------------------------------
